@@ -153,7 +153,35 @@ def run(ctx):
                 if ca[i] != st:
                     concrete.append({"kind": "strict-decoder", "forced": c["forced"], "meta": c["meta"], "wbxml": c["bytes"].hex(),
                                      "c": (ca[i] or "")[:3000], "oracle": st[:3000]})
-    for cr in ccr + crashes0:
+    # ---- tree builder (Model/TreeBuild.v vs wbxml_tree_from_wbxml): same documents plus SyncML-shaped ones ----
+    tree_hard, tree_soft, tree_n, tree_feats = [], 0, 0, collections.Counter()
+    tcr = []
+    if not getattr(ctx, "replay", None):
+        tcases = ps.syncml_tree_docs(ctx.seed, T, 300 if ctx.tier == "quick" else 3000)
+        tcases += [c for c in cases if c["kind"] in ("corpus", "fuzzfile", "systematic", "grammar", "grammar-strict", "grammar-nonwf",
+                                                     "charset-other", "charset-meta", "typed-reset", "tol-content-switch")
+                   or c["kind"].startswith("nested")]
+        tcases += [c for c in cases if c["kind"] in ("byteflip", "random-body")][:: 4]
+        tl = [ps.tline(c) for c in tcases]
+        tca, tcr = common.run_lines(harness, tl)
+        tma, _ = common.run_lines(driver, tl)
+        for c, a, m in zip(tcases, tca, tma):
+            tree_n += 1
+            if a and a.startswith("ok "):
+                tree_feats["built"] += 1
+                if " C " in a:
+                    tree_feats["with_cdata"] += 1
+                if a.count(" R ") > 1:
+                    tree_feats["with_embedded_document"] += 1
+                if " T " in a:
+                    tree_feats["with_text"] += 1
+            k = classify(a, m)
+            if k == "soft":
+                tree_soft += 1
+            elif k == "hard":
+                tree_hard.append({"kind": c["kind"], "forced": c["forced"], "meta": c["meta"], "wbxml": c["bytes"].hex() or "-",
+                                  "c_tree": (a or "")[:2000], "model_tree": (m or "")[:2000]})
+    for cr in ccr + crashes0 + tcr:
         concrete.append({"kind": "crash-or-sanitizer-report", **cr})
 
     sample_idx = list(range(0, len(cases), max(1, len(cases) // 12)))[:12]
@@ -175,6 +203,10 @@ def run(ctx):
         "strict_decoder_documents": strict_n,
         "strict_decoder_accepted": strict_ok,
         "spec_serializer_disagreements": len(spec_bad),
+        "tree_builder_documents": tree_n,
+        "tree_builder_features": dict(tree_feats),
+        "tree_builder_disagreements_hard": len(tree_hard),
+        "tree_builder_disagreements_soft": tree_soft,
     })
 
     # ---- verdict ----------------------------------------------------------------------------------------
@@ -192,5 +224,9 @@ def run(ctx):
                                                               "specification oracle on every generated well-formed document",
                                                     "first_cases": hard[:5], **{k: hard[0][k] for k in ("wbxml", "forced", "meta")}},
                           found_input=False)
+        if tree_hard:
+            ctx.violation("treebuild-correspondence-broken",
+                          {"broken": "model TreeBuild.v and wbxml_tree_from_wbxml disagree on the tree built from a document",
+                           "first_cases": tree_hard[:5], **{k: tree_hard[0][k] for k in ("wbxml", "forced", "meta")}}, found_input=False)
     elif hard:
         ctx.coverage["note"] = "model/C disagreements also present: %d" % len(hard)
